@@ -255,8 +255,9 @@ def main(argv=None):
             '(selftest_cases)'],
         'wall_s': round(wall, 2), 'violations': len(seen_v),
     }
-    os.makedirs(os.path.join(VERIF, 'evidence'), exist_ok=True)
-    with open(os.path.join(VERIF, 'evidence', prop + '.json'), 'w') as f:
+    evdir = os.environ.get('VF_EVIDENCE_DIR') or os.path.join(VERIF, 'evidence')
+    os.makedirs(evdir, exist_ok=True)
+    with open(os.path.join(evdir, prop + '.json'), 'w') as f:
         json.dump(ev, f, indent=1)
     print('%s tier=%s: %d configurations, %d paths, %d obligations (%d structural, %d unsat, %d sat, %d unknown), '
           '%d queries, solver %.1fs, selftest %d cases/%d mismatches, wall %.1fs -> exit %d' % (
